@@ -70,7 +70,8 @@ def method_spec(draw, idx):
         k = draw(st.sampled_from(names))
         b[k] = draw(st.one_of(st.sampled_from(values.LOOKALIKES), ARG_VALUES, st.just(_mutate_leaf(b[k]))))
         pool.append(b)
-    return {'name': f'm{idx}', 'params': params, 'form': form, 'ignore': ignore, 'version': version, 'pool': pool}
+    return {'name': f'm{idx}', 'params': params, 'form': form, 'ignore': ignore, 'version': version, 'pool': pool,
+            'returns_none': draw(st.integers(0, 4)) == 0}
 
 
 def _mutate_leaf(v):
@@ -113,7 +114,7 @@ def cases(draw):
             'ctl': draw(st.sampled_from(['none', 'none', 'none', 'force', 'only', 'store'])),
         }
         if op['ctl'] == 'store':
-            op['store'] = draw(ARG_VALUES.filter(lambda v: v is not None))
+            op['store'] = draw(ARG_VALUES)
         ops.append(op)
     return {'methods': methods, 'backend': backend, 'ops': ops}
 
@@ -136,8 +137,9 @@ def _src(methods):
             deco_args.append(f'version={m["version"]!r}')
         deco = '@cached' if m['form'] == 'bare' else f'@cached({", ".join(deco_args)})'
         names = ', '.join(f'{p["name"]}={p["name"]}' for p in m['params'])
+        ret = 'None' if m.get('returns_none') else 'r'
         lines += [f'    {deco}', f'    def {m["name"]}({", ".join(sig)}):',
-                  f'        return self._call({m["name"]!r}, dict({names}))']
+                  f'        r = self._call({m["name"]!r}, dict({names}))', f'        return {ret}']
     lines += ['    def _call(self, name, received):',
               '        self._log.append((name, received))',
               '        return {"m": name, "seq": len(self._log), "got": received}']
@@ -207,7 +209,7 @@ def eval_case(case, rec):
                 if ran:
                     raise Violation('only_cache-executed', info)
                 if present:
-                    if not strict_eq(got, model[mkey]):
+                    if got is tc.NO_VALUE or not strict_eq(got, model[mkey]):
                         raise Violation('only_cache-wrong-value', dict(info, got=repr(got), want=repr(model[mkey])))
                 elif got is not tc.NO_VALUE:
                     raise Violation('only_cache-phantom-entry', dict(info, got=repr(got)))
@@ -226,7 +228,7 @@ def eval_case(case, rec):
                                         dict(info, executions=len(ran), model_has_key=present))
                     if ran[0][0] != m['name'] or not strict_eq(ran[0][1], binding):
                         raise Violation('wrong-bound-arguments', dict(info, received=repr(ran[0]), binding=repr(binding)))
-                    want = {'m': m['name'], 'seq': len(log), 'got': binding}
+                    want = None if m.get('returns_none') else {'m': m['name'], 'seq': len(log), 'got': binding}
                     if not strict_eq(got, want):
                         raise Violation('computed-value-wrong', dict(info, got=repr(got), want=repr(want)))
                     model[mkey] = want
